@@ -13,6 +13,31 @@
  *   pages T1's *sequential* execution with the reset at p shows at its observation
  *   points (after each vbi_decode, inside each caption event callback, right after the
  *   reset), and the fetched sequence must be monotone in T1's progress.
+ * Harness T (service decoder, Teletext feed; added for seed C20 round 5): the same three
+ *   threads and the same oracles as harness A, but every frame T1 feeds carries a
+ *   Teletext packet besides the caption byte pair, with a VBI_EVENT_TTX_PAGE handler
+ *   registered, so that vbi_decode() also completes and stores Teletext pages
+ *   (store_lop() in packet.c: the third user of the channel switch countdown and its
+ *   mutex, besides vbi_decode() and vbi_channel_switched()).  Input alphabet, enumerated
+ *   completely (NTV configurations, each explored under the scheduler):
+ *     header class of the two pages completed after the reference header was stored:
+ *       equal header | different header, same magazine | different header, other magazine
+ *       | parity error in the header | header without page number
+ *       (store_lop's outcomes "same network", "channel switch", and the three
+ *       reachable flavours of "inconclusive"; the date transition flavour is not
+ *       reachable with in-bounds data: same_header() looks for the date 64 bytes into
+ *       the 40 byte header);
+ *     timing: all timestamps regular, or exactly one irregular step - late (+0.5 s) or
+ *       early (+0.01 s) - at any frame but the first: frame dropping arms the automatic
+ *       40 frame countdown and discards the page in progress, so the later pages are
+ *       completed while the countdown runs, or not, depending on where it happened.
+ *   The seed kept chswcd_mutex locked on the return "inconclusive header while the
+ *   countdown runs": the next vbi_decode() and every vbi_channel_switched() then block,
+ *   which the scheduler reports as deadlock (no enabled thread).  With regular timestamps
+ *   the same return needs T3's request to arrive between vbi_decode()'s countdown check
+ *   and store_lop(): one preemption.  The sequential reference runs also execute under
+ *   the scheduler (one thread), so that a self-deadlock of the plain feed is a deadlock
+ *   verdict at once instead of a watchdog case.
  * Harness B (raw decoder): T1 vbi_raw_decode x3; T2 remove/add/check services; T3
  *   add/remove services.  Every operation is one critical section of rd->mutex, so the
  *   lock acquisition order is the linearization: the same operations replayed
@@ -20,6 +45,7 @@
  *   and identical decode output (= "one consistent service set").
  * Race oracle: the same bodies, free running (no scheduler), built with
  *   -fsanitize=thread (bin/C20_tsan), many repetitions; any TSan report is a violation.
+ *   Harness T's configurations are all run once there, too.
  *   A serialising scheduler's hand-offs are happens-before edges that blind a race
  *   detector, hence the separate pass; it is a sample of schedules, not exhaustive.
  */
@@ -74,6 +100,65 @@ static const struct frame *cc_stream = stream0;
 static int NFRAMES = N0, VARIANT = 0;
 #define MAXOBS 256
 
+/* ---- harness T: variants 2 ... NV-1 (seed C20 round 5), see the head comment.
+ * Each frame = one Teletext packet (magazine serial mode: every header ends the page in
+ * progress) + one caption byte pair (roll-up text, so that the fetch oracles of harness A
+ * have something to look at).  Pages by ordinal: 0, 1 = pages 100, 101 with header A
+ * (page 100 completed at frame 2 becomes the reference header); 2, 3 = the two pages of
+ * the header class, completed at frames 6 and 8; 4 = page 104, header A, never completed. */
+enum { TK_NONE, TK_HDR, TK_ROW };
+static const struct tframe { int kind, ord; uint8_t b0, b1; } T_frames[] = {
+        {TK_HDR,0, 0x14,0x25}, {TK_ROW,0, 0x14,0x25},       /* RU2 */
+        {TK_HDR,1, 0x14,0x70}, {TK_ROW,1, 0x14,0x70},       /* PAC row 15 */
+        {TK_HDR,2, 'A','B'},   {TK_ROW,2, 'C',' '},
+        {TK_HDR,3, 0x14,0x2D}, {TK_ROW,3, 0x14,0x2D},       /* CR: roll up */
+        {TK_HDR,4, 'D','E'},   {TK_NONE,0, 'F',' '},
+};
+#define NT_FRAMES ((int)(sizeof T_frames / sizeof T_frames[0]))
+enum { HC_EQUAL, HC_DIFF_SAME_MAG, HC_DIFF_OTHER_MAG, HC_PARITY, HC_NO_PGNO, NHC };
+static const char *const HC_name[NHC] = { "equal", "different same-magazine", "different other-magazine", "parity-error", "no-page-number" };
+#define NTM (1 + 2 * (NT_FRAMES - 1))   /* timing: regular | (late, early) x frames 1 ... NT_FRAMES-1 */
+#define NTV (NHC * NTM)
+#define NV  (2 + NTV)
+static int T_hc, T_irr_frame = -1, T_irr_early;       /* of the selected variant */
+static double T_cum[MAXFRAMES], T_span;              /* timestamps relative to the first frame */
+/*                                0123456789012345678901234567890 1 */
+static const char T_text_a[33] = "    ZVBI-ONE  News      12:00:00";
+static const char T_text_b[33] = "    SPORTS  all scores  12:00:00";
+
+static int T_pgno(int ord)
+{
+        static const int plain[5] = { 0x100, 0x101, 0x102, 0x103, 0x104 };
+        if (T_hc == HC_DIFF_OTHER_MAG && (ord == 2 || ord == 3)) return 0x200 + ord - 2;
+        return plain[ord];
+}
+static void T_line(vbi_sliced *s, const struct tframe *f)
+{
+        int pgno = T_pgno(f->ord), mag = (pgno >> 8) & 7, packet = f->kind == TK_HDR ? 0 : 1;
+        int classed = f->ord == 2 || f->ord == 3;
+        memset(s, 0, sizeof *s);
+        s->id = VBI_SLICED_TELETEXT_B; s->line = 7;
+        s->data[0] = vbi_ham8(mag | (packet & 1) << 3); s->data[1] = vbi_ham8(packet >> 1);
+        if (f->kind == TK_ROW) { for (int i = 0; i < 40; i++) s->data[2 + i] = vbi_par8('a' + f->ord); return; }
+        s->data[2] = vbi_ham8(pgno & 15); s->data[3] = vbi_ham8(pgno >> 4 & 15);
+        for (int i = 4; i < 9; i++) s->data[i] = vbi_ham8(0);      /* subcode 0, no C4 ... C10 */
+        s->data[9] = vbi_ham8(1);                                   /* C11 magazine serial */
+        const char *text = classed && (T_hc == HC_DIFF_SAME_MAG || T_hc == HC_DIFF_OTHER_MAG) ? T_text_b : T_text_a;
+        for (int i = 0; i < 32; i++) s->data[10 + i] = vbi_par8(text[i]);
+        if (!(classed && T_hc == HC_NO_PGNO)) {
+                s->data[10] = vbi_par8('0' + (pgno >> 8)); s->data[11] = vbi_par8('0' + (pgno >> 4 & 15)); s->data[12] = vbi_par8('0' + (pgno & 15));
+        }
+        if (classed && T_hc == HC_PARITY) s->data[10 + 16] ^= 0x80;
+}
+static const char *variant_name(void)
+{
+        static char b[100];
+        if (VARIANT < 2) snprintf(b, sizeof b, "A%d", VARIANT);
+        else if (T_irr_frame < 0) snprintf(b, sizeof b, "T[%s header, regular timestamps]", HC_name[T_hc]);
+        else snprintf(b, sizeof b, "T[%s header, %s frame %d]", HC_name[T_hc], T_irr_early ? "early" : "late", T_irr_frame);
+        return b;
+}
+
 static vbi_decoder *V;
 static int A_loops = 1;                 /* stream repetitions (free running mode) */
 static int A_fetches = 3;
@@ -107,12 +192,33 @@ static void cc_handler(vbi_event *ev, void *user)
         obs_add(cur_obs, page_hash(&pg));
 }
 
+static int ttx_pages_announced;          /* harness T: TTX_PAGE events, in the feeding thread */
+static void ttx_handler(vbi_event *ev, void *user)
+{
+        (void) user;
+        if (ev->type == VBI_EVENT_TTX_PAGE) ttx_pages_announced++;
+}
+
+static double frame_time(int l, int i)
+{
+        if (VARIANT < 2) return 1.0 + (l * NFRAMES + i) / 30.0;
+        return 1.0 + l * T_span + T_cum[i];
+}
 static void feed_frame(int i, double t)
 {
-        vbi_sliced s; memset(&s, 0, sizeof s);
-        s.id = VBI_SLICED_CAPTION_525; s.line = cc_stream[i].line;
-        s.data[0] = vbi_par8(cc_stream[i].b0); s.data[1] = vbi_par8(cc_stream[i].b1);
-        vbi_decode(V, &s, 1, t);
+        vbi_sliced s[2]; int n = 0;
+        memset(s, 0, sizeof s);
+        if (VARIANT < 2) {
+                s[0].id = VBI_SLICED_CAPTION_525; s[0].line = cc_stream[i].line;
+                s[0].data[0] = vbi_par8(cc_stream[i].b0); s[0].data[1] = vbi_par8(cc_stream[i].b1);
+                n = 1;
+        } else {
+                if (T_frames[i].kind != TK_NONE) T_line(&s[n++], &T_frames[i]);
+                s[n].id = VBI_SLICED_CAPTION_525; s[n].line = 21;
+                s[n].data[0] = vbi_par8(T_frames[i].b0); s[n].data[1] = vbi_par8(T_frames[i].b1);
+                n++;
+        }
+        vbi_decode(V, s, n, t);
 }
 
 static vbi_decoder *new_decoder(void)
@@ -120,18 +226,61 @@ static vbi_decoder *new_decoder(void)
         vbi_decoder *v = vbi_decoder_new();
         if (!v) { fprintf(stderr, "vbi_decoder_new failed\n"); _exit(42); }
         vbi_event_handler_register(v, VBI_EVENT_CAPTION, cc_handler, NULL);
+        if (VARIANT >= 2) vbi_event_handler_register(v, VBI_EVENT_TTX_PAGE, ttx_handler, NULL);
+        ttx_pages_announced = 0;
         return v;
 }
 
 /* reference: sequential run with T3's reset executed at the start of frame p (p < 0:
  * never).  trips = set of frames during which a reset ran (T3's and, in variant 1, the
- * one the XDS packet causes): that is all T1 can observe of where the reset happened. */
-static struct obslog ref_obs[2][MAXFRAMES + 2];
-static uint32_t      ref_trips[2][MAXFRAMES + 2];
-static int ref_ready[2];
+ * one the XDS packet causes; in harness T the ones store_lop() decides on): that is all
+ * T1 can observe of where the reset happened.
+ * The run executes as the only thread of the scheduler: a mutex the feed leaves locked
+ * makes its next acquisition a deadlock verdict (no enabled thread) instead of a hang. */
+static struct obslog ref_obs[NV][MAXFRAMES + 2];
+static uint32_t      ref_trips[NV][MAXFRAMES + 2];
+static int ref_ready[NV];
 static void select_variant(int v)
 {
-        VARIANT = v; cc_stream = v ? stream1 : stream0; NFRAMES = v ? N1 : N0;
+        VARIANT = v;
+        if (v < 2) { cc_stream = v ? stream1 : stream0; NFRAMES = v ? N1 : N0; return; }
+        int tm = (v - 2) % NTM;
+        T_hc = (v - 2) / NTM; NFRAMES = NT_FRAMES;
+        T_irr_frame = tm ? 1 + (tm - 1) / 2 : -1; T_irr_early = tm ? (tm - 1) & 1 : 0;
+        T_cum[0] = 0;
+        for (int i = 1; i < NT_FRAMES; i++)
+                T_cum[i] = T_cum[i - 1] + (i != T_irr_frame ? 1 / 30.0 : T_irr_early ? 0.01 : 0.5);
+        T_span = T_cum[NT_FRAMES - 1] + 1 / 30.0;
+}
+static int ref_p; static uint32_t ref_trips_out;
+static void ref_thread(void *arg)
+{
+        struct obslog *o = arg;
+        int p = ref_p;
+        uint32_t trips = 0;
+        vbi_page pg;
+        vbi_fetch_cc_page(V, &pg, 1, TRUE); obs_add(o, page_hash(&pg));     /* initial */
+        uint64_t blank = o->h[0];
+        for (int i = 0; i < NFRAMES; i++) {
+                if (i == p) vbi_channel_switched(V, 0);
+                int n0 = o->n;
+                V->wss_rep_ct = 77;
+                feed_frame(i, frame_time(0, i));
+                if (V->wss_rep_ct != 77) {
+                        trips |= 1u << i;
+                        /* the reset runs inside vbi_decode before the caption line is decoded
+                         * (A: the request is executed first thing; T: also when a Teletext page
+                         * is completed, and the Teletext packet comes first); a concurrent reader
+                         * may look right after it: blank pages.  Not for the reset the XDS packet
+                         * of variant 1 causes: that one runs with cc.mutex held. */
+                        if ((i == p || VARIANT >= 2) && o->n < MAXOBS) {
+                                memmove(&o->h[n0 + 1], &o->h[n0], (o->n - n0) * sizeof o->h[0]);
+                                o->h[n0] = blank; o->n++;
+                        }
+                }
+                vbi_fetch_cc_page(V, &pg, 1, TRUE); obs_add(o, page_hash(&pg));
+        }
+        ref_trips_out = trips;
 }
 static void build_reference(int v)
 {
@@ -139,24 +288,10 @@ static void build_reference(int v)
         if (ref_ready[v]) return;
         for (int p = -1; p < NFRAMES; p++) {
                 struct obslog *o = &ref_obs[v][p + 1]; o->n = 0;
-                uint32_t trips = 0;
-                V = new_decoder(); cur_obs = o;
-                vbi_page pg;
-                vbi_fetch_cc_page(V, &pg, 1, TRUE); obs_add(o, page_hash(&pg));     /* initial */
-                uint64_t blank = o->h[0];
-                for (int i = 0; i < NFRAMES; i++) {
-                        if (i == p) {
-                                vbi_channel_switched(V, 0);
-                                /* the reset runs inside vbi_decode before the line is decoded; a
-                                 * concurrent reader may look right after it: blank pages */
-                                obs_add(o, blank);
-                        }
-                        V->wss_rep_ct = 77;
-                        feed_frame(i, 1.0 + i / 30.0);
-                        if (V->wss_rep_ct != 77) trips |= 1u << i;
-                        vbi_fetch_cc_page(V, &pg, 1, TRUE); obs_add(o, page_hash(&pg));
-                }
-                ref_trips[v][p + 1] = trips;
+                sc_thread_fn fn[1] = { ref_thread }; void *args[1] = { o };
+                V = new_decoder(); cur_obs = o; ref_p = p;
+                sc_run(1, fn, args, 20000);
+                ref_trips[v][p + 1] = ref_trips_out;
                 cur_obs = NULL;
                 vbi_decoder_delete(V); V = NULL;
         }
@@ -167,6 +302,9 @@ static void build_reference(int v)
 static uint32_t  trips;                 /* frames during which T1 saw a reset run */
 static uint64_t  fetched[16]; static int nfetched;
 static int       t2_fetch_failed;
+/* harness T, non-vacuity: T1's acquisitions of chswcd_mutex in the current frame, how many
+ * pages were completed while the countdown was running, the countdown when T1 finished */
+static int       t1_cd_acq, t1_pages_in_countdown, t1_end_chswcd;
 
 static void A_t1(void *arg)
 {
@@ -177,9 +315,11 @@ static void A_t1(void *arg)
                          * decoder (not fed here) write wss_rep_ct; the network pointer cannot be
                          * used because the cache recycles the network object at the same address */
                         V->wss_rep_ct = 77;
-                        feed_frame(i, 1.0 + (l * NFRAMES + i) / 30.0);
+                        t1_cd_acq = 0;
+                        feed_frame(i, frame_time(l, i));
                         if (V->wss_rep_ct != 77 && l == 0) trips |= 1u << i;
                 }
+        if (sc_self() >= 0) t1_end_chswcd = V->chswcd;       /* scheduled runs only: unlocked read */
 }
 static void A_t2(void *arg)
 {
@@ -210,6 +350,11 @@ static void A_on_op(int tid, char op, void *m)
                 cc_channel *ch = &V->cc.channel[0];
                 lin_expect[nlin++] = page_hash(ch->pg + (ch->hidden ^ 1));
         }
+        /* T1's first acquisition of chswcd_mutex in a frame is vbi_decode()'s own; a later one
+         * before any reset ran in this frame (the sentinel is intact) is store_lop()'s */
+        if (tid == 0 && op == 'A' && VARIANT >= 2 && V && m == (void *) &V->chswcd_mutex
+            && ++t1_cd_acq >= 2 && V->wss_rep_ct == 77 && V->chswcd > 0)
+                t1_pages_in_countdown++;
 }
 
 static void A_body(void *arg)
@@ -218,6 +363,7 @@ static void A_body(void *arg)
         sc_thread_fn fns[3] = { A_t1, A_t2, A_t3 };
         V = new_decoder(); cur_obs = NULL;
         trips = 0; nfetched = 0; t2_fetch_failed = 0; handler_fetch_failed = 0; nlin = 0;
+        t1_cd_acq = 0; t1_pages_in_countdown = 0; t1_end_chswcd = 0;
         sc_on_op = A_on_op;
         sc_run(3, fns, NULL, 20000);
         sc_on_op = NULL;
@@ -227,7 +373,7 @@ static void A_body(void *arg)
         else for (int j = 0; j < nfetched; j++)
                 if (fetched[j] != lin_expect[j]) {
                         mc_violation("A: fetched caption page differs from the page displayed when the fetch acquired cc.mutex (torn or stale snapshot)",
-                                     "variant %d fetch #%d; schedule %s | %s", VARIANT, j, mc_choices_str(), sc_trace());
+                                     "variant %s fetch #%d; schedule %s | %s", variant_name(), j, mc_choices_str(), sc_trace());
                         break;
                 }
         /* oracle */
@@ -255,15 +401,25 @@ static void A_body(void *arg)
                 }
                 mc_violation(ncand ? "A: fetched caption page is not a snapshot of the sequential execution (or not monotone)"
                                    : "A: resets ran at frames no sequential execution shows",
-                             "variant %d, resets at frames %x, %d candidate reset positions, %d fetches; schedule %s | %s",
-                             VARIANT, trips, ncand, nfetched, mc_choices_str(), sc_trace());
+                             "variant %s, resets at frames %x, %d candidate reset positions, %d fetches; schedule %s | %s",
+                             variant_name(), trips, ncand, nfetched, mc_choices_str(), sc_trace());
         } else {
                 mc_hash h; mc_hash_init(&h); mc_hash_u64(&h, VARIANT * 100 + best_p); mc_hash_add(&h, seq, nfetched * sizeof(int));
                 mc_distinct(h.a);
-                mc_outcome("A%d reset@%d", VARIANT, best_p);
+                if (VARIANT < 2) mc_outcome("A%d reset@%d", VARIANT, best_p);
+                else mc_outcome("T reset@%d", best_p);
         }
         int reset_frame = best_p;
         mc_count("states", 1);
+        if (VARIANT >= 2) {
+                mc_count("T_pages_completed_during_countdown", t1_pages_in_countdown);
+                /* what the input configuration does by itself (T3's request comes last) */
+                if (sc_preemptions() == 0)
+                        mc_outcome("T %s header, %s: %d pages announced, %d completed during the countdown, countdown %s at the end",
+                                   HC_name[T_hc], T_irr_frame < 0 ? "regular" : T_irr_early ? "early frame" : "late frame",
+                                   ttx_pages_announced, t1_pages_in_countdown, t1_end_chswcd > 0 ? "running" : "idle");
+                if (sc_preemptions() == 1 && t1_pages_in_countdown) mc_sample("%s schedule (1 preemption, reset@%d): %s", variant_name(), reset_frame, sc_trace());
+        } else
         if (sc_preemptions() == 2) mc_sample("A schedule (2 preemptions, reset@%d): %s", reset_frame, sc_trace());
         vbi_decoder_delete(V); V = NULL;
 }
@@ -384,10 +540,11 @@ int main(int argc, char **argv)
 {
         const char *which = argc > 1 ? argv[1] : "A";
         int reps = argc > 2 ? atoi(argv[2]) : 10;
+        int first = argc > 3 ? atoi(argv[3]) : 0;         /* T: first configuration of this process */
         for (int r = 0; r < reps; r++) {
-                if (which[0] == 'A') {
+                if (which[0] == 'A' || which[0] == 'T') {
                         sc_thread_fn fns[4] = { A_t1, A_t2, A_t3, A_t2 };
-                        select_variant(r & 1);
+                        select_variant(which[0] == 'A' ? r & 1 : 2 + (first + r) % NTV);
                         V = new_decoder(); A_loops = 6; A_fetches = 150; nfetched = 0; trips = 0;
                         sc_run_free(3, fns, NULL);
                         vbi_decoder_delete(V); V = NULL;
@@ -405,7 +562,8 @@ int main(int argc, char **argv)
 
 /* ------------------------------------------------------------------ driver */
 
-static int bound, nshards;
+static int bound, boundT, nshards;
+static int tsan_base, tsan_T, tsan_skip_T;
 
 static void A_case(uint64_t idx, void *arg)
 {
@@ -414,6 +572,16 @@ static void A_case(uint64_t idx, void *arg)
                 "shard %d of %d, P=%d", shard, nshards, bound);
         build_reference(v);
         mc_explore_shard(A_body, NULL, bound, shard, nshards);
+}
+/* harness T: one case per input configuration, all schedules with <= boundT preemptions */
+static void T_case(uint64_t idx, void *arg)
+{
+        char key[160];
+        select_variant(2 + (int) idx);
+        snprintf(key, sizeof key, "T: service decoder feed(Teletext, %s header)/fetch/switch", HC_name[T_hc]);
+        mc_case(key, "%s, P=%d", variant_name(), boundT);
+        build_reference(2 + (int) idx);
+        mc_explore(A_body, NULL, boundT);
 }
 static void B_case(uint64_t idx, void *arg)
 {
@@ -426,7 +594,11 @@ static void B_case(uint64_t idx, void *arg)
  * feed shows here, under a short watchdog, instead of stalling every shard */
 static void ref_case(uint64_t idx, void *arg)
 {
-        mc_case(idx ? "A1: sequential reference run" : "A0: sequential reference run", "variant %d", (int) idx);
+        char key[160];
+        select_variant((int) idx);
+        if (idx < 2) snprintf(key, sizeof key, "A%d: sequential reference run", (int) idx);
+        else snprintf(key, sizeof key, "T: sequential reference run (Teletext, %s header)", HC_name[T_hc]);
+        mc_case(key, "variant %s", variant_name());
         build_reference((int) idx);
         mc_count("states", NFRAMES + 1);
 }
@@ -434,19 +606,23 @@ static void ref_case(uint64_t idx, void *arg)
 /* one free running TSan process; a report aborts it */
 static void tsan_case(uint64_t idx, void *arg)
 {
-        const char *which = (idx & 1) ? "B" : "A";
-        char bin[600], log[600], reps[16];
+        int isT = idx >= (uint64_t) tsan_base;
+        const char *which = isT ? "T" : (idx & 1) ? "B" : "A";
+        char bin[600], log[600], reps[16], first[24];
+        int nreps = mc_tier == MC_THOROUGH ? 60 : 12;
+        if (isT && tsan_skip_T) return;
         const char *b = getenv("VERIF_BUILD"); if (!b) b = "build";
         snprintf(bin, sizeof bin, "%s/bin/C20_tsan", b);
         snprintf(log, sizeof log, "%s/run/C20/tsan.%llu.log", b, (unsigned long long) idx);
-        snprintf(reps, sizeof reps, "%d", mc_tier == MC_THOROUGH ? 60 : 12);
-        mc_case(idx & 1 ? "B: free running TSan pass" : "A: free running TSan pass", "process %llu", (unsigned long long) idx);
+        snprintf(reps, sizeof reps, "%d", nreps);
+        snprintf(first, sizeof first, "%d", isT ? (int)((idx - tsan_base) * nreps % NTV) : 0);
+        mc_case(isT ? "T: free running TSan pass" : idx & 1 ? "B: free running TSan pass" : "A: free running TSan pass", "process %llu", (unsigned long long) idx);
         pid_t p = fork();
         if (p == 0) {
                 int fd = open(log, O_WRONLY | O_CREAT | O_TRUNC, 0666);
                 dup2(fd, 2); dup2(fd, 1);
                 alarm(120);             /* survives exec: a deadlocked free run must not linger */
-                execl(bin, bin, which, reps, (char *) NULL);
+                execl(bin, bin, which, reps, first, (char *) NULL);
                 _exit(127);
         }
         int st; waitpid(p, &st, 0);
@@ -454,7 +630,7 @@ static void tsan_case(uint64_t idx, void *arg)
         if (WIFEXITED(st) && WEXITSTATUS(st) == 0) { unlink(log); return; }
         if (WIFEXITED(st) && WEXITSTATUS(st) == 127) { fprintf(stderr, "cannot exec %s\n", bin); _exit(42); }
         if (WIFSIGNALED(st) && WTERMSIG(st) == SIGALRM) {
-                mc_violation(idx & 1 ? "B: free running pass hangs (deadlock)" : "A: free running pass hangs (deadlock)", "no progress for 120 s, log %s", log);
+                mc_violation(isT ? "T: free running pass hangs (deadlock)" : idx & 1 ? "B: free running pass hangs (deadlock)" : "A: free running pass hangs (deadlock)", "no progress for 120 s, log %s", log);
                 return;
         }
         /* summarise: kind of report + the first frame inside /repo of the first two stacks */
@@ -472,8 +648,9 @@ static void tsan_case(uint64_t idx, void *arg)
         /* canonical order of the two functions */
         if (strcmp(fn[0], fn[1]) > 0) { char t[80]; strcpy(t, fn[0]); strcpy(fn[0], fn[1]); strcpy(fn[1], t); }
         char key[200];
-        snprintf(key, sizeof key, "%s: tsan %s %s / %s", which, kind, fn[0], fn[1]);
-        mc_violation(key, "free running pass, log %s", log);
+        /* T feeds the same service decoder as A: the same race gets the same key */
+        snprintf(key, sizeof key, "%s: tsan %s %s / %s", isT ? "A" : which, kind, fn[0], fn[1]);
+        mc_violation(key, "free running pass %s, log %s", which, log);
 }
 
 int main(int argc, char **argv)
@@ -481,20 +658,34 @@ int main(int argc, char **argv)
         mc_init(argc, argv, "C20");
         mc_set_budget(150, 1500);
         bound = mc_tier == MC_THOROUGH ? 3 : 2;
+        boundT = mc_tier == MC_THOROUGH ? 2 : 1;
         nshards = mc_tier == MC_THOROUGH ? 64 : 32;
+        tsan_base = mc_tier == MC_THOROUGH ? 32 : 16;
+        tsan_T = mc_tier == MC_THOROUGH ? 16 : 8;       /* x 60 / 12 repetitions >= NTV: every configuration once */
         mc_meta("level", "model_checking");
         mc_meta("technique", "stateless preemption-bounded exploration of real pthreads under a baton scheduler hooked at pthread_mutex_* (iterative context bounding), plus a separate free-running ThreadSanitizer pass");
-        mc_meta("rule", "every schedule of the 3-thread harness with <= P preemptions at the library's mutex operations is executed to completion; states = complete schedules executed, transitions = scheduling points executed; distinct = distinct observation vectors (A: reset frame + snapshot indices fetched; B: linearization order)");
-        mc_meta("bound", "P=%d preemptions; A0: %d caption frames on field 1, A1: %d frames with an XDS network change on field 2; %d fetches, 1 channel switch; B: 3 decodes, 3+2 service operations", bound, N0, N1, A_fetches);
+        mc_meta("rule", "every schedule of the 3-thread harness with <= P preemptions at the library's mutex operations is executed to completion (harness T: for every one of the %d input configurations = header class x timing); states = complete schedules executed, transitions = scheduling points executed; distinct = distinct observation vectors (A, T: variant + reset frame + snapshot indices fetched; B: linearization order)", NTV);
+        mc_meta("bound", "A, B: P=%d preemptions; A0: %d caption frames on field 1, A1: %d frames with an XDS network change on field 2; %d fetches, 1 channel switch; "
+                         "T: P=%d preemptions (fewer than A: %d configurations instead of 2), %d frames of one Teletext packet + one caption byte pair, 5 pages of which 2 are completed after the reference header was stored, "
+                         "their header in %d classes (equal / different in the same magazine / different in another magazine / parity error / no page number) x timing in %d classes (regular, or one late +0.5 s or early +0.01 s timestamp at any of frames 1...%d), %d fetches, 1 channel switch; "
+                         "B: 3 decodes, 3+2 service operations; free running pass: %d processes x %d repetitions of A, B and T (T: every configuration at least once)",
+                bound, N0, N1, A_fetches, boundT, NTV, NT_FRAMES, NHC, NTM, NT_FRAMES - 1, A_fetches,
+                tsan_base + tsan_T, mc_tier == MC_THOROUGH ? 60 : 12);
         mc_meta("assume", "sequential consistency at scheduling points: accesses between two synchronisation operations are atomic under the scheduler; unsynchronised accesses are the business of the free-running TSan pass, which is a sample of OS schedules (not exhaustive)");
-        mc_meta("assume", "A's snapshot oracle observes CC page 1 only");
-        mc_pool("A-reference", 2, ref_case, NULL, 8);
-        if (mc_replaying || mc_violations_so_far() == 0)
+        mc_meta("assume", "A's and T's snapshot oracles observe CC page 1 only; T does not compare Teletext pages or events (the property states no oracle for them), it checks that the threads terminate under every schedule and the caption oracles");
+        mc_meta("assume", "T: the date transition flavour of an inconclusive Teletext header is not generated (same_header() reads it outside the 40 byte header)");
+        mc_pool("A-reference", NV, ref_case, NULL, 8);
+        int ref_failed = !mc_replaying && mc_violations_so_far() > 0;
+        if (!ref_failed) {
                 mc_pool("A-sched", 2 * nshards, A_case, NULL, 900);
-        else
-                mc_not_exhaustive("A-sched skipped: the sequential reference run already fails");
+                mc_pool("T-sched", NTV, T_case, NULL, 900);
+        } else
+                mc_not_exhaustive("A-sched and T-sched skipped: the sequential reference run already fails");
         mc_pool("B-sched", nshards, B_case, NULL, 900);
-        mc_pool("tsan-free", mc_tier == MC_THOROUGH ? 32 : 16, tsan_case, NULL, 300);
+        /* a feed that deadlocks by itself would only make the free running T processes sit out their alarm */
+        tsan_skip_T = ref_failed;
+        if (tsan_skip_T) mc_not_exhaustive("free running T pass skipped: the sequential reference run already fails");
+        mc_pool("tsan-free", tsan_base + tsan_T, tsan_case, NULL, 300);
         return mc_finish();
 }
 #endif
